@@ -300,6 +300,12 @@ func checkC16(c *Check) {
 		}
 	}
 
+	// 5. a discarded half is gone: the maps the sweeps clean are the only
+	// containers of session objects (a secondary index that the sweep does
+	// not clean keeps a discarded session reachable, and its held events are
+	// emitted late when the login arrives)
+	singleOwner(c, t)
+
 	// 3. ticker wiring
 	tickerWiring(c, t)
 }
